@@ -32,14 +32,19 @@ class SetEncoder(encoder.SetEncoder):
                 return component.effectiveTagSet[-1:]
             else:
                 # TODO: move out of sorting key function
-                names = [namedType.name for namedType in asn1Spec.componentType.namedTypes
-                         if namedType.name in component]
-                if len(names) != 1:
-                    raise error.PyAsn1Error(
-                        '%s components for Choice at %r' % (len(names) and 'Multiple ' or 'None ', component))
+                # follow the chosen alternatives through nested untagged CHOICEs
+                while (compType.typeId == univ.Choice.typeId and
+                       not compType.tagSet):
+                    names = [namedType.name for namedType in compType.componentType.namedTypes
+                             if namedType.name in component]
+                    if len(names) != 1:
+                        raise error.PyAsn1Error(
+                            '%s components for Choice at %r' % (len(names) and 'Multiple ' or 'None ', component))
 
-                # TODO: support nested CHOICE ordering
-                return asn1Spec[names[0]].tagSet[-1:]
+                    component = component[names[0]]
+                    compType = compType.componentType[names[0]].asn1Object
+
+                return compType.tagSet[-1:]
 
         else:
             # SET components are ordered by their outermost tags
